@@ -46,10 +46,23 @@ impl ColumnIndex {
         let checksum = footer.get_u64();
         verify_stored_checksum(configured_checksum_type, checksum_type, index_data, checksum)?;
 
+        // The entry count is not covered by the checksum, so it is cross-checked against the
+        // entries themselves: every entry takes at least one byte, and `length` entries must fill
+        // the checksummed area exactly.
+        if length > index_data.len() {
+            return Err(TracedStorageError::decode(
+                "failed to decode column index: entry count exceeds index size",
+            ));
+        }
         let mut indexes = Vec::with_capacity(length);
         for _ in 0..length {
             let index = BlockIndex::decode_length_delimited(&mut index_data)?;
             indexes.push(index);
+        }
+        if !index_data.is_empty() {
+            return Err(TracedStorageError::decode(
+                "failed to decode column index: entry count does not match the entries",
+            ));
         }
 
         Ok(Self {
